@@ -84,7 +84,7 @@ func addMap(dst, src map[string]int) {
 }
 
 func genOptsFor(tier, domain, arch string) genOpts {
-	return genOpts{tier: tier, domain: domain, bits32: arch == "386", lim: art.VerifMaxPrefixLen, churnBias: os.Getenv("VERIF_POINTS") != "", growBias: os.Getenv("VERIF_GCPERCENT") != ""}
+	return genOpts{tier: tier, domain: domain, bits32: arch == "386", lim: art.VerifMaxPrefixLen, churnBias: os.Getenv("VERIF_POINTS") != "", growBias: os.Getenv("VERIF_GCPERCENT") != "" || os.Getenv("VERIF_GROWBIAS") != ""}
 }
 
 func workerMain(args []string) int {
@@ -233,8 +233,15 @@ func workerMain(args []string) int {
 			// reaches; now place collections at seeded ones, inside operations
 			pr := NewRNG(mix2(mix2(*seed, hashStr("points/"+*prop)), uint64(i)))
 			k := pr.Range(1, 6)
+			if os.Getenv("VERIF_GCASYNC") != "" {
+				k = pr.Range(6, 24)
+			}
 			for j := 0; j < k; j++ {
-				tr.Points = append(tr.Points, PointAct{Nth: pickPoint(pr, ex.pointIDs, ex.pointN), Act: "gc2"})
+				act := "gc2"
+				if os.Getenv("VERIF_GCASYNC") != "" && j%2 == 0 {
+					act = "gcasync"
+				}
+				tr.Points = append(tr.Points, PointAct{Nth: pickPoint(pr, ex.pointIDs, ex.pointN), Act: act})
 			}
 			if jf != nil {
 				pj, _ := json.Marshal(tr.Points)
